@@ -105,7 +105,7 @@ class SuiteRun:
             if rc != 0:
                 self.crashed["lean"] = (rc, err[-2000:])
 
-    def disagreements(self, relevant_state=("E", "D", "M")):
+    def disagreements(self, relevant_state=("E", "D", "M"), error_names=True):
         """[(session index, op index, rust line, lean line)] first disagreement of each session.
         `relevant_state`: kinds of internal state (E encapsulator, D decapsulator, M bare memory) the property's
         theorems speak about; an op whose RESULT agrees and whose state differs only in a kind outside this set
@@ -128,6 +128,15 @@ class SuiteRun:
                     a = a.rsplit(" | ", 1)[0]
                     b = b.rsplit(" | ", 1)[0]
                     self.unobservable += 1
+                if a != b and not error_names and a.startswith("err ") and b.startswith("err "):
+                    # the property's theorems do not speak about WHICH error is returned: compare the rest
+                    # (consumed length, buffer digests, state) with the error name blanked
+                    ta, tb = a.split(" "), b.split(" ")
+                    ta[1] = tb[1] = "*"
+                    a2, b2 = " ".join(ta), " ".join(tb)
+                    if a2 == b2:
+                        self.state_only += 1
+                        continue
                 if a != b:
                     if " | " in a and " | " in b:
                         ra, sa = a.rsplit(" | ", 1)
